@@ -14,15 +14,63 @@ namespace CprocVerif.LowerMach2
 open CprocVerif.Qbe CprocVerif.Lower CprocVerif.Lower2 CprocVerif.CSem CprocVerif.CSem2 CprocVerif.CInt
 open CprocVerif.LowerArith CprocVerif.LowerMach CprocVerif.LowerMem
 
-/-- Static data of the simulation of one function: the assembled items (`S`, whose memory field is
-    irrelevant), the final slot map, the types of all variables, the return type. -/
+/-- What `ret` does once the returned value is known and the frame has been released (the tail of
+    `Qbe.stepRet`): the outermost activation ends the run, otherwise the caller continues after its `call`. -/
+def retCont (p : Prog) (rest : List Qbe.Frame) (mem : Mem) (trace : Array String) (rv : RetVal) : Step :=
+  match rest with
+  | [] => .done (.ret rv) trace
+  | caller :: rest' =>
+    match caller.curIns with
+    | some (.call res _ _ _) =>
+      match bindCallRes p caller.env mem res rv with
+      | .error e => .done e.toEnd trace
+      | .ok (env', mem') =>
+        .next ⟨{ caller with env := env', ii := caller.ii + 1 } :: rest', mem', trace⟩
+    | _ => .done (.stuck (.other "internal: return to a non-call")) trace
+
+theorem stepRet_eq {p : Prog} {fr : Qbe.Frame} {rest : List Qbe.Frame} {mem : Mem} {trace : Array String}
+    {v : Option RVal} {rv : RetVal} (h : retValue p fr mem v = .ok rv) :
+    stepRet p fr rest mem trace v = retCont p rest (mem.popTo fr.stackMark fr.spMark) trace rv := by
+  unfold stepRet retCont
+  rw [h]
+  rfl
+
+theorem step_ret_fix {p : Prog} {ext : Qbe.Ext} (x : Fix) {env : Env} {M : Mem} {bi ii : Nat} {b : Block}
+    {val : Val} {r : RVal} {rv : RetVal}
+    (hb : x.fi.f.blocks[bi]? = some b) (hi : b.ins.size = ii) (ht : b.term = some (.ret (some val)))
+    (hval : readVal p env val = .ok r) (hrv : retValue p (mkFr x env bi ii) M (some r) = .ok rv) :
+    step p ext (mkSt x env M bi ii) = retCont p x.rest (M.popTo x.sm x.spm) x.tr rv := by
+  simp only [step, mkSt, mkFr, hb, ins_none_of_size hi, stepTerm, ht, hval]
+  exact stepRet_eq hrv
+
+/-- Room on the IL stack for `d` more activations of functions with at most `K` variables. -/
+def Room (K d : Nat) (M : Mem) : Prop :=
+  stackLimit + 64 + d * (64 + 32 * K) ≤ M.sp ∧ M.stack.size + d * (K + 1) < 2 ^ 64
+
+/-- Static data of the simulation of one activation: the assembled items (`S`, whose memory field is
+    irrelevant), the final slot map, the types of all variables, the return type; the program `P` whose
+    functions a call may name and where the IL program has them; the memory `M0` at the call (the marks of
+    the frame are taken from it); room for `d` nested calls of functions with at most `K` variables. -/
 structure Stat where
   S : Sit
   σ : List Nat
   vtys : List CSem.Ty
   ret : CSem.Ty
   hret : S.x.fi.f.ret = some (.base (cls ret))
-  hrest : S.x.rest = []
+  P : List CSem2.Func
+  M0 : Mem
+  hsm : S.x.sm = M0.stack.size
+  hspm : S.x.spm = M0.sp
+  K : Nat
+  d : Nat
+  hK : vtys.length ≤ K
+  hroom : Room K (d + 1) M0
+  hfuncs : ∀ fn g, lookup P fn = some g →
+    ∃ sid, S.p.funcs[fn]? = some (FuncInfo.of (Lower2.emitFunc S.cs sid g))
+  hP : ∀ fn g, lookup P fn = some g → CSem2.WT g ∧ callsOK P g.body = true ∧ g.vtys.length ≤ K
+
+/-- the step of a `ret` delivering `r` -/
+def Stat.exit (T : Stat) (r : RVal) : Step := retCont T.S.p T.S.x.rest T.M0 T.S.x.tr (.scalar r)
 
 /-- machine state at the position after the items `pre` -/
 def Stat.at (T : Stat) (env : Env) (M : Mem) (pre : List Item) : State := (setM T.S M).at env pre
@@ -96,18 +144,29 @@ theorem step_jnz_item (T : Stat) {pre post : List Item} {l a z : String} {ph : L
 
 theorem step_ret_item (T : Stat) {pre post : List Item} {l : String} {ph : List Phi} {val : Val}
     (hits : T.S.its = pre ++ .lbl (some (.ret (some val))) l ph :: post) {env : Env} (M : Mem)
-    {r r' : RVal} (hval : readVal T.S.p env val = .ok r) (hco : r.coerce (cls T.ret) = .ok r') :
-    step T.S.p T.S.ext (T.at env M pre) = .done (.ret (.scalar r')) T.S.x.tr := by
+    {r r' : RVal} (hval : readVal T.S.p env val = .ok r) (hco : r.coerce (cls T.ret) = .ok r')
+    (hpop : M.popTo T.M0.stack.size T.M0.sp = T.M0) :
+    step T.S.p T.S.ext (T.at env M pre) = T.exit r' := by
   obtain ⟨b, hb, hsz, hterm, _⟩ := T.S.term_at hits
   rw [Stat.at_def]
-  simp only [step, mkSt, mkFr, hb, ins_none_of_size hsz, stepTerm, hterm, hval, T.hrest, stepRet,
-    retValue, T.hret, Ty.cls, hco, bind, Except.bind, pure, Except.pure]
+  have hrv : retValue T.S.p (mkFr T.S.x env (posOf T.S.o0 pre).1 (posOf T.S.o0 pre).2) M (some r) =
+      .ok (.scalar r') := by
+    simp only [retValue, mkFr, T.hret, Ty.cls, hco, bind, Except.bind, pure, Except.pure]
+  rw [step_ret_fix T.S.x hb hsz hterm hval hrv, T.hsm, T.hspm, hpop]
+  rfl
 
 theorem step_ret_end (T : Stat) {pre : List Item} (hits : T.S.its = pre) {val : Val}
     (hft : T.S.ft = .ret (some val)) {env : Env} (M : Mem)
-    {r r' : RVal} (hval : readVal T.S.p env val = .ok r) (hco : r.coerce (cls T.ret) = .ok r') :
-    step T.S.p T.S.ext (T.at env M pre) = .done (.ret (.scalar r')) T.S.x.tr :=
-  (setM T.S M).step_ret hits hft T.hrest hval T.hret hco
+    {r r' : RVal} (hval : readVal T.S.p env val = .ok r) (hco : r.coerce (cls T.ret) = .ok r')
+    (hpop : M.popTo T.M0.stack.size T.M0.sp = T.M0) :
+    step T.S.p T.S.ext (T.at env M pre) = T.exit r' := by
+  obtain ⟨b, hb, hsz, hterm⟩ := T.S.end_at hits
+  rw [Stat.at_def]
+  have hrv : retValue T.S.p (mkFr T.S.x env (posOf T.S.o0 pre).1 (posOf T.S.o0 pre).2) M (some r) =
+      .ok (.scalar r') := by
+    simp only [retValue, mkFr, T.hret, Ty.cls, hco, bind, Except.bind, pure, Except.pure]
+  rw [step_ret_fix T.S.x hb hsz (hterm.trans (congrArg some hft)) hval hrv, T.hsm, T.hspm, hpop]
+  rfl
 
 /-- an instruction without result (a `store`) -/
 theorem run_nores (T : Stat) {pre post : List Item} {o : Op} {args : List Val} {env : Env} {M M' : Mem}
@@ -187,9 +246,9 @@ theorem sim_exprOut (T : Stat) {c : SCtx} {nd : Nat} {pre post : List Item} (hp 
     (e : Expr) (hext : Ext T (c.upd (exprOut T.S.cs c e).ctx))
     (hwt : e.wt (T.vtys.take nd) = true) {s : Store} {v : Int} (hev : evalE T.S.cs s e = some v)
     (hits : T.S.its = pre ++ (exprOut T.S.cs c e).items ++ post) {env : Env} {M : Mem}
-    (inv : SInv T.S.cs T.σ T.vtys s env M) :
+    (inv : SInv T.M0 T.S.cs T.σ T.vtys s env M) :
     ∃ n env' r, T.Reach n (T.at env M pre) (T.at env' M (pre ++ (exprOut T.S.cs c e).items)) ∧
-      SInv T.S.cs T.σ T.vtys s env' M ∧ Frame c.lastid (exprOut T.S.cs c e).ctx.lastid env env' ∧
+      SInv T.M0 T.S.cs T.σ T.vtys s env' M ∧ Frame c.lastid (exprOut T.S.cs c e).ctx.lastid env env' ∧
       readVal T.S.p env' (exprOut T.S.cs c e).val = .ok r ∧ Rep e.ty v r := by
   have hpre : ∀ i, i < nd → T.σ.getD i 0 = c.slots.getD i 0 := fun i hi => hext.1 i (by
     show i < c.slots.length; rw [hp.nslots]; exact hi)
@@ -218,10 +277,10 @@ theorem sim_condOut (T : Stat) {c : SCtx} {nd : Nat} {pre post : List Item} (hp 
     (hwt : e.wt (T.vtys.take nd) = true) {s : Store} {v : Int} (hev : evalE T.S.cs s e = some v)
     (hits : T.S.its = pre ++ (exprOut T.S.cs c e).items ++
       (jnzOut T.S.cs ((c.upd (exprOut T.S.cs c e).ctx).addBlocks k) e.ty (exprOut T.S.cs c e).val).items ++ post)
-    {env : Env} {M : Mem} (inv : SInv T.S.cs T.σ T.vtys s env M) :
+    {env : Env} {M : Mem} (inv : SInv T.M0 T.S.cs T.σ T.vtys s env M) :
     ∃ n env' r w, T.Reach n (T.at env M pre) (T.at env' M (pre ++ (exprOut T.S.cs c e).items ++
         (jnzOut T.S.cs ((c.upd (exprOut T.S.cs c e).ctx).addBlocks k) e.ty (exprOut T.S.cs c e).val).items)) ∧
-      SInv T.S.cs T.σ T.vtys s env' M ∧
+      SInv T.M0 T.S.cs T.σ T.vtys s env' M ∧
       readVal T.S.p env' (jnzOut T.S.cs ((c.upd (exprOut T.S.cs c e).ctx).addBlocks k) e.ty
         (exprOut T.S.cs c e).val).val = .ok r ∧ r.asW = .ok w ∧ (w ≠ 0 ↔ v ≠ 0) := by
   have sj := jnzArg_straight T.S.cs ((c.upd (exprOut T.S.cs c e).ctx).addBlocks k).ctx e.ty
@@ -265,29 +324,29 @@ def JumpedTo (T : Stat) (l : String) (n : Nat) (st0 : State) (env' : Env) (M' : 
 /-- `return v` is pending at the end of the items, or has been executed -/
 def Returned (T : Stat) (v : Int) (n : Nat) (st0 : State) (pos : List Item) (o : SCtx) : Prop :=
   (∃ env' M' val r0, o.jump = some (.ret (some val)) ∧ T.Reach n st0 (T.at env' M' pos) ∧
-    readVal T.S.p env' val = .ok r0 ∧ Rep T.ret v r0) ∨
-  (∃ st r, T.Reach n st0 st ∧ step T.S.p T.S.ext st = .done (.ret (.scalar r)) T.S.x.tr ∧ RetRep T.ret v r)
+    readVal T.S.p env' val = .ok r0 ∧ Rep T.ret v r0 ∧ M'.popTo T.M0.stack.size T.M0.sp = T.M0) ∨
+  (∃ st r, T.Reach n st0 st ∧ step T.S.p T.S.ext st = T.exit r ∧ RetRep T.ret v r)
 
 /-- What the run of the items of a statement (ending at position `pos` with context `o`) achieves,
     by outcome of the C execution. -/
 def Post (T : Stat) (lp : Bool × Bool) (brk cont : String) (st0 : State) (pos : List Item) (o : SCtx) :
     CSem2.Outcome → Prop
   | .normal s' => o.jump = none ∧ ∃ n env' M', T.Reach n st0 (T.at env' M' pos) ∧
-      SInv T.S.cs T.σ T.vtys s' env' M'
-  | .brk s' => lp.1 = true ∧ ∃ n env' M', SInv T.S.cs T.σ T.vtys s' env' M' ∧ JumpedTo T brk n st0 env' M' pos o
-  | .cont s' => lp.2 = true ∧ ∃ n env' M', SInv T.S.cs T.σ T.vtys s' env' M' ∧ JumpedTo T cont n st0 env' M' pos o
-  | .ret v => ∃ n, Returned T v n st0 pos o
+      SInv T.M0 T.S.cs T.σ T.vtys s' env' M'
+  | .brk s' => lp.1 = true ∧ ∃ n env' M', SInv T.M0 T.S.cs T.σ T.vtys s' env' M' ∧ JumpedTo T brk n st0 env' M' pos o
+  | .cont s' => lp.2 = true ∧ ∃ n env' M', SInv T.M0 T.S.cs T.σ T.vtys s' env' M' ∧ JumpedTo T cont n st0 env' M' pos o
+  | .ret v => InRange (T.ret.intTy T.S.cs) v ∧ ∃ n, Returned T v n st0 pos o
 
 /-- The same after the block has been closed by the next label: nothing is pending any more. -/
 def Done (T : Stat) (lp : Bool × Bool) (brk cont : String) (st0 : State) (pos : List Item) :
     CSem2.Outcome → Prop
-  | .normal s' => ∃ n env' M', T.Reach n st0 (T.at env' M' pos) ∧ SInv T.S.cs T.σ T.vtys s' env' M'
-  | .brk s' => lp.1 = true ∧ ∃ n env' M' st, SInv T.S.cs T.σ T.vtys s' env' M' ∧ T.Reach n st0 st ∧
+  | .normal s' => ∃ n env' M', T.Reach n st0 (T.at env' M' pos) ∧ SInv T.M0 T.S.cs T.σ T.vtys s' env' M'
+  | .brk s' => lp.1 = true ∧ ∃ n env' M' st, SInv T.M0 T.S.cs T.σ T.vtys s' env' M' ∧ T.Reach n st0 st ∧
       AtLabel T.S brk env' M' st
-  | .cont s' => lp.2 = true ∧ ∃ n env' M' st, SInv T.S.cs T.σ T.vtys s' env' M' ∧ T.Reach n st0 st ∧
+  | .cont s' => lp.2 = true ∧ ∃ n env' M' st, SInv T.M0 T.S.cs T.σ T.vtys s' env' M' ∧ T.Reach n st0 st ∧
       AtLabel T.S cont env' M' st
-  | .ret v => ∃ n st r, T.Reach n st0 st ∧ step T.S.p T.S.ext st = .done (.ret (.scalar r)) T.S.x.tr ∧
-      RetRep T.ret v r
+  | .ret v => InRange (T.ret.intTy T.S.cs) v ∧
+      ∃ n st r, T.Reach n st0 st ∧ step T.S.p T.S.ext st = T.exit r ∧ RetRep T.ret v r
 
 theorem Done.post {T : Stat} {lp : Bool × Bool} {brk cont : String} {st0 : State} {pos : List Item} {o : SCtx}
     {out : CSem2.Outcome} (h : Done T lp brk cont st0 pos out) (hj : o.jump = none) :
@@ -301,8 +360,8 @@ theorem Done.post {T : Stat} {lp : Bool × Bool} {brk cont : String} {st0 : Stat
     obtain ⟨h0, n, env', M', st, h1, h2, h3⟩ := h
     exact ⟨h0, n, env', M', h1, Or.inr ⟨st, h2, h3⟩⟩
   | ret v =>
-    obtain ⟨n, st, r, h1, h2, h3⟩ := h
-    exact ⟨n, Or.inr ⟨st, r, h1, h2, h3⟩⟩
+    obtain ⟨hrg, n, st, r, h1, h2, h3⟩ := h
+    exact ⟨hrg, n, Or.inr ⟨st, r, h1, h2, h3⟩⟩
 
 /-- prefix a run -/
 theorem Post.prepend {T : Stat} {lp : Bool × Bool} {brk cont : String} {st0 st1 : State} {pos : List Item}
@@ -325,8 +384,8 @@ theorem Post.prepend {T : Stat} {lp : Bool × Bool} {brk cont : String} {st0 st1
     · exact Or.inl ⟨hj, hr.trans h3⟩
     · exact Or.inr ⟨st, hr.trans h3, h4⟩
   | ret v =>
-    obtain ⟨n, h2⟩ := h
-    refine ⟨m + n, ?_⟩
+    obtain ⟨hrg, n, h2⟩ := h
+    refine ⟨hrg, m + n, ?_⟩
     rcases h2 with ⟨env', M', val, r0, hj, h3, h4, h5⟩ | ⟨st, r, h3, h4, h5⟩
     · exact Or.inl ⟨env', M', val, r0, hj, hr.trans h3, h4, h5⟩
     · exact Or.inr ⟨st, r, hr.trans h3, h4, h5⟩
@@ -345,8 +404,8 @@ theorem Done.prepend {T : Stat} {lp : Bool × Bool} {brk cont : String} {st0 st1
     obtain ⟨h0, n, env', M', st, h1, h2, h3⟩ := h
     exact ⟨h0, m + n, env', M', st, h1, hr.trans h2, h3⟩
   | ret v =>
-    obtain ⟨n, st, r, h1, h2, h3⟩ := h
-    exact ⟨m + n, st, r, hr.trans h1, h2, h3⟩
+    obtain ⟨hrg, n, st, r, h1, h2, h3⟩ := h
+    exact ⟨hrg, m + n, st, r, hr.trans h1, h2, h3⟩
 
 /-- What closing the block does to a pending jump.  The next item is the label `l` whose block ends
     with the pending jump, or — nothing pending — with `dflt` (`none`: fall through into `l`;
@@ -376,12 +435,12 @@ theorem Post.close {T : Stat} {lp : Bool × Bool} {brk cont : String} {st0 : Sta
       exact ⟨h0, n + 1, env', M', st, h1, h3.trans (Reach.one hs), hat⟩
     · exact ⟨h0, n, env', M', st, h1, h3, h4⟩
   | ret v =>
-    obtain ⟨n, h2⟩ := h
-    rcases h2 with ⟨env', M', val, r0, hj, h3, h4, h5⟩ | ⟨st, r, h3, h4, h5⟩
+    obtain ⟨hrg, n, h2⟩ := h
+    rcases h2 with ⟨env', M', val, r0, hj, h3, h4, h5, h6⟩ | ⟨st, r, h3, h4, h5⟩
     · rw [hj] at hits
       obtain ⟨r', hco, hrep'⟩ := rep_coerce h5
-      exact ⟨n, _, r', h3, step_ret_item T hits M' h4 hco, hrep', coerce_kind hco⟩
-    · exact ⟨n, st, r, h3, h4, h5⟩
+      exact ⟨hrg, n, _, r', h3, step_ret_item T hits M' h4 hco h6, hrep', coerce_kind hco⟩
+    · exact ⟨hrg, n, st, r, h3, h4, h5⟩
 
 /-- The same when `funcjmp(l')` precedes the label: without a pending jump control goes to `l'`. -/
 theorem Post.closeJmp {T : Stat} {lp : Bool × Bool} {brk cont : String} {st0 : State} {pos post : List Item}
@@ -390,7 +449,7 @@ theorem Post.closeJmp {T : Stat} {lp : Bool × Bool} {brk cont : String} {st0 : 
     (hlp : (lp.1 = true → CanJump T.S brk) ∧ (lp.2 = true → CanJump T.S cont)) (hl' : CanJump T.S l') :
     match out with
     | .normal s' => ∃ n env' M' st, T.Reach n st0 st ∧ AtLabel T.S l' env' M' st ∧
-        SInv T.S.cs T.σ T.vtys s' env' M'
+        SInv T.M0 T.S.cs T.σ T.vtys s' env' M'
     | out => Done T lp brk cont st0 [] out := by
   cases out with
   | normal s' =>
@@ -413,12 +472,12 @@ theorem Post.closeJmp {T : Stat} {lp : Bool × Bool} {brk cont : String} {st0 : 
       exact ⟨h0, n + 1, env', M', st, h1, h3.trans (Reach.one hs), hat⟩
     · exact ⟨h0, n, env', M', st, h1, h3, h4⟩
   | ret v =>
-    obtain ⟨n, h2⟩ := h
-    rcases h2 with ⟨env', M', val, r0, hj, h3, h4, h5⟩ | ⟨st, r, h3, h4, h5⟩
+    obtain ⟨hrg, n, h2⟩ := h
+    rcases h2 with ⟨env', M', val, r0, hj, h3, h4, h5, h6⟩ | ⟨st, r, h3, h4, h5⟩
     · rw [hj] at hits
       obtain ⟨r', hco, hrep'⟩ := rep_coerce h5
-      exact ⟨n, _, r', h3, step_ret_item T hits M' h4 hco, hrep', coerce_kind hco⟩
-    · exact ⟨n, st, r, h3, h4, h5⟩
+      exact ⟨hrg, n, _, r', h3, step_ret_item T hits M' h4 hco h6, hrep', coerce_kind hco⟩
+    · exact ⟨hrg, n, st, r, h3, h4, h5⟩
 
 /-- `Done` does not depend on the position for the outcomes that leave the statement. -/
 theorem Done.move {T : Stat} {lp : Bool × Bool} {brk cont : String} {st0 : State} {pos pos' : List Item}
